@@ -1,6 +1,7 @@
 --------------------------- MODULE TraceBestBasis ---------------------------
 (* Binding of BestBasis.tla to PeriodicFinder._find_best_basis: one record per real call
-     spans   integer span vectors (the harness hands the function  scale * R * span, R a rotation)
+     spans   integer span vectors in the lattice frame with Gram matrix `gram` (the harness hands the function
+             scale * R * A * span, A a realisation of the frame, R a rotation)
      metrics the span metrics
      res     what the code returned (1-based indices into spans)
    Verdict: the answer is one the rule of BestBasis.tla allows.  Ambiguous inputs (a float comparison within 1 %
@@ -11,15 +12,17 @@ NMax == 0
 Met == {}
 EqualMetrics == TRUE
 VARIABLES sp, me, done
-B == INSTANCE BestBasis
-
 Tr == ndJsonDeserialize(IOEnv.TRACE_FILE)
+\* all records of one batch share the lattice frame (the harness writes one batch per Gram matrix)
+G == Tr[1].gram
+B == INSTANCE BestBasis
 RightShape(e) == /\ Len(e.res) = B!Dim(e.spans)
                  /\ \A k \in 1..Len(e.res) : e.res[k] \in 1..Len(e.spans)
 Independent(e) == LET r == e.res s == e.spans IN
-                  /\ Len(r) = 3 => B!Det(s[r[1]], s[r[2]], s[r[3]]) # 0
-                  /\ Len(r) = 2 => B!Cross(s[r[1]], s[r[2]]) # <<0, 0, 0>>
-Verdict(e) == IF e.error # "" THEN "ReturnsNormally"
+                  /\ Len(r) = 3 => B!Det2(s[r[1]], s[r[2]], s[r[3]]) # 0
+                  /\ Len(r) = 2 => B!N2Cross(s[r[1]], s[r[2]]) # 0
+Verdict(e) == IF e.gram # G THEN "BatchSharesFrame"
+              ELSE IF e.error # "" THEN "ReturnsNormally"
               ELSE IF B!Ambiguous(e.spans, e.metrics)
                    THEN (IF Len(e.res) = 0 THEN "NonEmpty" ELSE "ambiguous")
               ELSE IF ~RightShape(e) THEN "DimensionOfChoice"
